@@ -24,25 +24,35 @@ LIFECYCLES = {'asap': lifecycles.asap, 'one_by_one': lifecycles.one_by_one, 'all
 
 
 def parse_script(spec: Iterable[Any]) -> list[Outcome]:
+    """Outcome scripts. Grammar per item: <kind>[<delay>][~<sleep>] with kind in ok|temp|perm|arb
+    (temp without a number = delay 3, tempN = delay None), or ok+status<v> / ok+label<v> (foreign edit
+    while running), ok+sleep<d> (legacy spelling of ok~<d>)."""
     out = []
     for s in spec:
         if isinstance(s, Outcome):
             out.append(s)
-        elif s == 'ok':
-            out.append(OK)
-        elif s == 'perm':
-            out.append(PERM)
-        elif s == 'arb':
-            out.append(ARB)
-        elif isinstance(s, str) and s.startswith('temp'):
-            d = s[4:]
-            out.append(temp(float(d) if d else 3))
-        elif isinstance(s, str) and s.startswith('ok+status'):
+            continue
+        if s.startswith('ok+status'):
             out.append(Outcome('ok', edit={'status': {'foreign': s[9:] or 'x'}}))
-        elif isinstance(s, str) and s.startswith('ok+label'):
+            continue
+        if s.startswith('ok+label'):
             out.append(Outcome('ok', edit={'metadata': {'labels': {'foreign': s[8:] or 'x'}}}))
-        elif isinstance(s, str) and s.startswith('ok+sleep'):
+            continue
+        if s.startswith('ok+sleep'):
             out.append(Outcome('ok', sleep=float(s[8:])))
+            continue
+        head, _, sl = s.partition('~')
+        sleep = float(sl) if sl else 0.0
+        if head == 'ok':
+            out.append(Outcome('ok', sleep=sleep))
+        elif head == 'perm':
+            out.append(Outcome('perm', sleep=sleep))
+        elif head == 'arb':
+            out.append(Outcome('arb', sleep=sleep))
+        elif head.startswith('temp'):
+            d = head[4:]
+            delay = None if d == 'N' else (float(d) if d else 3.0)
+            out.append(Outcome('temp', delay=delay, sleep=sleep))
         else:
             raise ValueError(s)
     return out
@@ -149,7 +159,7 @@ class ChangeScenario(Scenario):
             h = dict(h)
             hid, on = h.pop('id'), h.pop('on')
             script = parse_script(h.pop('script', ['ok']))
-            if on == 'daemon':
+            if on == 'daemon' and h.pop('body', 'reaction') == 'reaction':
                 from kv.harness.op import daemon_fn
                 fn = daemon_fn(env, hid, reaction=h.pop('reaction', 'obeys'), lifetime=h.pop('lifetime', None),
                                exit_delay=h.pop('exit_delay', 0.0))
@@ -171,7 +181,10 @@ class ChangeScenario(Scenario):
         async def parent(**kw: Any) -> Any:
             for s in subs:
                 sfn = scripted(env, f"{hid}/{s['id']}", parse_script(s.get('script', ['ok'])))
-                kopf.subhandler(id=s['id'])(sfn)
+                opts = {k: v for k, v in s.items() if k not in ('id', 'script')}
+                if isinstance(opts.get('errors'), str):
+                    opts['errors'] = getattr(kopf.ErrorsMode, opts['errors'])
+                kopf.subhandler(id=s['id'], **opts)(sfn)
             return await fn(**kw)
         parent.__name__ = parent.__qualname__ = hid
         return parent
